@@ -23,6 +23,8 @@ func c43Histories(tier string) [][]BlockSpec {
 		blk(tx("gov_dao", "D", "action", "dao_burn", "amount", "7")),
 		blk(tx("gov_param", "G", "key", "pos/MaxValidators", "value", `"1"`)),
 		{Absent: []string{"N2"}},
+		// governance lowers a population limit below the current population (the entities stay, only new ones are refused)
+		blk(tx("gov_param", "G", "key", "application/MaxApplications", "value", `"1"`)),
 	}
 	depth := 2
 	if tier == "thorough" {
@@ -65,7 +67,7 @@ func cmpMaps(kind string, a, b map[string]string) string {
 func init() {
 	register(&Check{ID: "C43", QuickBud: 110 * time.Second, ThorBud: 20 * time.Minute,
 		Run: func(c *ev.Ctx) {
-			c.Rule = "for every history of up to D blocks over a 9-item menu (transfers to new accounts, node stake/unstake, app stake/unstake, DAO burn, parameter change, missed signatures) on the real application: export the application state at the final height (ExportAppState), start a NEW application from that export (InitChain in a fresh worker process) and compare accounts and balances (incl. module accounts), total supply, node records, application records, all parameters and pending claims of the two nodes. Non-trivial = history with at least one block"
+			c.Rule = "for every history of up to D blocks over a 10-item menu (transfers to new accounts, node stake/unstake, app stake/unstake, DAO burn, parameter changes incl. a population limit lowered below the population, missed signatures) on the real application: export the application state at the final height (ExportAppState), start a NEW application from that export (InitChain in a fresh worker process) and compare accounts and balances (incl. module accounts), total supply, node records, application records, all parameters and pending claims of the two nodes. Non-trivial = history with at least one block"
 			c.Assume("signing-info details that the export intentionally resets are not compared; the compared node fields are status, jailed, tokens, chains, url, output, delegators, key, unstaking time")
 			p := getPool()
 			hs := c43Histories(c.Tier)
